@@ -514,6 +514,15 @@ pub fn builtin_binary_get<E: Effect>(
                     let bit_offset = bit_offset as usize;
                     let num_bits = num_bits as usize;
 
+                    // An offset past the end can never be satisfied; rejecting it here also keeps
+                    // the bit arithmetic below from overflowing on huge offsets.
+                    if byte_offset > binary_data.len() {
+                        return Err(Error::InvalidArgument(format!(
+                            "Not enough bits: need {} bits starting at byte {} bit {}",
+                            num_bits, byte_offset, bit_offset
+                        )));
+                    }
+
                     // Calculate which bytes we need to read
                     let total_bit_start = byte_offset * 8 + bit_offset;
                     let total_bit_end = total_bit_start + num_bits;
@@ -616,6 +625,15 @@ pub fn builtin_binary_set<E: Effect>(
                     let bit_offset = bit_offset as usize;
                     let num_bits = num_bits as usize;
                     let len = binary_data.len();
+
+                    // An offset past the end can never be satisfied; rejecting it here also keeps
+                    // the bit arithmetic below from overflowing on huge offsets.
+                    if byte_offset > len {
+                        return Err(Error::InvalidArgument(format!(
+                            "Not enough bits: need {} bits starting at byte {} bit {}",
+                            num_bits, byte_offset, bit_offset
+                        )));
+                    }
 
                     // Calculate which bytes we need to modify
                     let total_bit_start = byte_offset * 8 + bit_offset;
